@@ -1045,18 +1045,31 @@ struct Driver {
         srcI = parseInts(A(2));
         NEED(Cfg::cap == 0 || static_cast<long>(srcI.size()) <= Cfg::cap, "cap");
         mkSrc();
-        std::vector<int> left;
+        std::vector<int> left, order;
         {
           O o(srcT.begin(), srcT.end(), CmpTraits<OC>::make());
+          for (auto it = o.begin(); it != o.end(); ++it) order.push_back(valOf(*it));
           arm();
           v(a).merge(o);
           disarm();
           for (auto it = o.begin(); it != o.end(); ++it) left.push_back(valOf(*it));
         }
+        // The source must hold what a std::set ordered by the other comparator holds.  The order in which merge
+        // offers the source elements is unspecified (an inline SmallSet iterates in insertion order), and it decides
+        // which of several source elements equivalent for the target is transferred: the reference offers them in the
+        // order the source iterates.
         std::set<int, OC> ro(CmpTraits<OC>::make());
         ro.insert(srcI.begin(), srcI.end());
-        r.merge(ro);
-        std::vector<int> rleft(ro.begin(), ro.end());
+        {
+          std::vector<int> o2 = order, r2(ro.begin(), ro.end());
+          std::sort(o2.begin(), o2.end());
+          std::sort(r2.begin(), r2.end());
+          if (o2 != r2 || (isFlat && order != std::vector<int>(ro.begin(), ro.end())))
+            fail(base(), "a set of the other type built from the range holds [" + joinInts(order) + "], std::set [" + joinInts(std::vector<int>(ro.begin(), ro.end())) + "]");
+        }
+        std::vector<int> rleft;
+        for (size_t i = 0; i < order.size(); ++i)
+          if (!r.insert(order[i]).second) rleft.push_back(order[i]);
         res = "left:" + joinInts(left);
         if (!broken[a]) {
           std::vector<int> l2 = left, r2 = rleft;
@@ -1230,7 +1243,14 @@ struct Driver {
             continue;
           }
           if (broken[k]) {
+            // judged again once what the set holds is a valid set content
             ref[k] = mkRef(now);
+            std::vector<int> chk(ref[k].begin(), ref[k].end()), n2 = now;
+            if (Cfg::small(x)) {
+              std::sort(n2.begin(), n2.end());
+              std::sort(chk.begin(), chk.end());
+            }
+            if (n2 == chk && static_cast<size_t>(x.size()) == now.size()) broken[k] = false;
             continue;
           }
           std::vector<int> want(ref[k].begin(), ref[k].end());
@@ -1277,7 +1297,10 @@ struct Driver {
               bad = true;
             }
           }
-          if (bad) ref[k] = mkRef(now);  // reported once: later steps are judged from what the set really holds
+          if (bad) {  // reported once: later steps are judged from what the set really holds
+            ref[k] = mkRef(now);
+            if (ref[k].size() != now.size()) broken[k] = true;  // not even a set: nothing to compare with until it is one again
+          }
         }
       }
       // C02 / C06: ledgers
@@ -1319,7 +1342,11 @@ struct Driver {
         bool anyLarge = false;
         for (int k = 0; k < K; ++k)
           if ((before[k].alive && !before[k].small) || (alive[k] && !Cfg::small(v(k)))) anyLarge = true;
-        if (!anyLarge && op != "merge_other") fail("C04", "allocator request although every set is and was inline: " + joinStr(G().allocEvents));
+        // (a drained set may still give back the buffer of its backing set: only requests count)
+        bool request = false;
+        for (size_t i = 0; i < G().allocEvents.size(); ++i)
+          if (G().allocEvents[i][0] != '-') request = true;
+        if (request && !anyLarge && op != "merge_other") fail("C04", "allocator request although every set is and was inline: " + joinStr(G().allocEvents));
       }
     }
 
